@@ -258,7 +258,40 @@ def crate_dir(fam, tier):
     return os.path.join(WORK, "ws", "%s_%s" % (fam, tier))
 
 
+def _sync_tree(src, dst, subst):
+    """copy a harness crate into work/ws, rewriting the repository / harness paths; files are only
+    rewritten when their content changes (so cargo does not rebuild needlessly)"""
+    for root, dn, fn in os.walk(src):
+        dn[:] = [x for x in dn if x not in ("target",)]
+        rel = os.path.relpath(root, src)
+        os.makedirs(os.path.join(dst, rel), exist_ok=True)
+        for f in fn:
+            text = open(os.path.join(root, f), "rb").read()
+            if f.endswith((".toml", ".rs", ".lock")):
+                t = text.decode("utf-8")
+                for a, b in subst:
+                    t = t.replace(a, b)
+                text = t.encode("utf-8")
+            out = os.path.join(dst, rel, f)
+            try:
+                if open(out, "rb").read() == text:
+                    continue
+            except OSError:
+                pass
+            with open(out, "wb") as fh:
+                fh.write(text)
+
+
+def harness_crate(name):
+    """harness/<name> materialised under work/ws with its path dependencies pointing at REPO"""
+    dst = os.path.join(WORK, "ws", "_" + name)
+    _sync_tree(os.path.join(VERIF, "harness", name), dst,
+               [("/repo/", REPO + "/"), ("/verif/harness/common", os.path.join(WORK, "ws", "_common"))])
+    return dst
+
+
 def materialise_crate(fam, tier, cdir, extra_deps="", main_rs=None, build_rs=None):
+    harness_crate("common")
     cd = crate_dir(fam, tier)
     os.makedirs(os.path.join(cd, "src"), exist_ok=True)
     tpl = os.path.join(VERIF, "harness", "template")
@@ -273,7 +306,8 @@ def materialise_crate(fam, tier, cdir, extra_deps="", main_rs=None, build_rs=Non
             f.write(text)
 
     put(os.path.join(cd, "Cargo.toml"), open(os.path.join(tpl, "Cargo.toml.in")).read()
-        .replace("@NAME@", "%s_%s" % (fam, tier)).replace("@EXTRA_DEPS@", extra_deps).replace("/repo/", REPO + "/"))
+        .replace("@NAME@", "%s_%s" % (fam, tier)).replace("@EXTRA_DEPS@", extra_deps).replace("/repo/", REPO + "/")
+        .replace("/verif/harness/common", os.path.join(WORK, "ws", "_common")))
     put(os.path.join(cd, "build.rs"), open(build_rs or os.path.join(tpl, "build.rs")).read())
     put(os.path.join(cd, "src", "main.rs"), open(main_rs or os.path.join(tpl, "main.rs")).read())
     put(os.path.join(cd, "corpus_dir"), cdir + "\n")
